@@ -584,4 +584,69 @@ theorem computeNevt_inv (hR : Refines e T L) (o : Oracles) (dt : Rat) (x : Vec R
 
 end loops
 
+theorem not_mem_tauKeys_wall (e : EngIn) (i s k : Nat) (h : e.topo.nbr i k = none) : ((i, some s, k) : TKey) ∉ tauKeys e := by
+  unfold tauKeys tauKeysCell tauKeysDiff
+  simp only [List.mem_flatMap, List.mem_append, List.mem_map, List.mem_filterMap, List.mem_range]
+  rintro ⟨i', _, h1 | ⟨s', _, n, _, h3⟩⟩
+  · obtain ⟨r, _, hr⟩ := h1; cases hr
+  · by_cases hs : (e.topo.nbr i' n).isSome = true
+    · rw [if_pos hs] at h3; cases h3; rw [h] at hs; cases hs
+    · rw [if_neg hs] at h3; cases h3
+
+section step
+variable {e : EngIn} {T : Tabs} {L : Layout}
+
+/-- `Compute_nevt` ↔ `poissonCounts` on `tauLeapMeans` + `countsOfDraws`: the generator is called `k` times
+(`o.pois cnt … o.pois (cnt+k-1)`), and the scratch vectors hold the counts `c` that the core model makes of these draws -/
+theorem computeNevt_val (hR : Refines e T L) (o : Oracles) (dt : Rat) (x : Vec Rat) (hx : x.size = T.n * T.ns)
+    (st : TauSt) (h1 : st.mnr.size = T.n * T.nr) (h2 : SlotOK T L e.topo.nSlots st.mnd) :
+    Ok (computeNevt T L o dt x st) (fun st' => st'.mnr.size = T.n * T.nr ∧ SlotOK T L e.topo.nSlots st'.mnd ∧
+      ∃ k cs c, st'.cnt = st.cnt + k ∧
+        poissonCounts (tauLeapMeans e dt (absState T.ns x)) (drawsFrom o st.cnt k) = some cs ∧
+        countsOfDraws e cs = some c ∧ CountsOK e T L c st') := by
+  refine Ok.mono (computeNevt_inv hR o dt x hx st h1 h2) (fun st' hinv => ⟨hinv.mnr, hinv.mnd, ?_⟩)
+  obtain ⟨k, cs, hcnt, hlen, hpc, hS⟩ := hinv.ex
+  refine ⟨k, cs, _, hcnt, by rw [tauLeapMeans_keys]; exact hpc, countsOfDraws_keys e cs hlen, ?_⟩
+  refine ⟨hinv.mnr, fun i r hi hr => hS (i, none, r) ⟨hi, hr⟩ (Or.inl hi),
+    fun i s k hi hs hk => hS (i, some s, k) ⟨hi, hs, hk⟩ (Or.inl hi), fun i s k _ _ _ hnb => ?_⟩
+  exact tlookup_not_mem _ _ _ (not_mem_tauKeys_wall e i s k hnb)
+
+theorem SlotOK.transfer {α : Type} {slots slots' : Nat → Nat} {nb nb' : Nat → Nat → Option Nat} {sv : SlotVec α}
+    (l1 : LayoutOK T L slots nb) (l2 : LayoutOK T L slots' nb') (h : SlotOK T L slots sv) : SlotOK T L slots' sv := by
+  intro i s k hi hs hk a ha
+  have : slots i = slots' i := by
+    have a1 := l1.nSlots i hi
+    rw [l2.nSlots i hi] at a1
+    exact (Except.ok.inj a1).symm
+  exact h i s k hi hs (by rw [this]; exact hk) a ha
+
+/-- TAU-LEAP (both layouts): `Iterate()` of `TauLeap3D` / `TauLeapGraph` on the checked object is `tauLeapApply` of the
+core model for the counts that `poissonCounts (tauLeapMeans …)` and `countsOfDraws` make of the `k` draws
+`o.pois cnt, …, o.pois (cnt+k-1)` of the generator; the draw counter of the object advances by `k`. -/
+theorem tauleap_iterate_refines (o : Oracles) (S : CSim) (h : SimOK S) (e : EngIn) (hR : Refines e S.T S.L)
+    (st : TauSt) (hsc : S.scratch = .tau st) (hnc : S.smp.complete = false) :
+    Ok (S.iterate o) (fun r => SimOK r.1 ∧ Refines e r.1.T r.1.L ∧ r.1.dt = S.dt ∧
+      ∃ k cs c st', r.1.scratch = .tau st' ∧ st'.cnt = st.cnt + k ∧
+        poissonCounts (tauLeapMeans e S.dt (absState S.T.ns S.x)) (drawsFrom o st.cnt k) = some cs ∧
+        countsOfDraws e cs = some c ∧
+        Agree r.1.T r.1.x (tauLeapApply e c (absState S.T.ns S.x))) := by
+  unfold CSim.iterate
+  rw [if_neg (by simp [hnc]), hsc]
+  simp only []
+  obtain ⟨slots, nb, hL, hscr⟩ := h.layout
+  have hst : st.mnr.size = S.T.n * S.T.nr ∧ SlotOK S.T S.L e.topo.nSlots st.mnd := by
+    rw [hsc] at hscr
+    cases hscr with
+    | tau _ h1 h2 => exact ⟨h1, h2.transfer hL hR.layout⟩
+  refine Ok.bind (computeNevt_val hR o S.dt S.x h.x st hst.1 hst.2) (fun st' hst' => ?_)
+  obtain ⟨hm1, hm2, k, cs, c, hcnt, hpc, hcd, hC⟩ := hst'
+  refine Ok.bind (applyNevt_val hR hC S.x h.x) (fun x' hx' => ?_)
+  refine Ok.mono (finishStep_fields S h x' hx'.1 S.dt (.tau st') ⟨_, _, hR.layout, .tau st' hm1 hm2⟩ S.ucnt) (fun r hr => ?_)
+  obtain ⟨hok, hx, hT, hLe, hdt, hscr', _⟩ := hr
+  refine ⟨hok, by rw [hT, hLe]; exact hR, hdt, k, cs, c, st', hscr', hcnt, hpc, hcd, ?_⟩
+  rw [hT, hx]
+  exact hx'.2
+
+end step
+
 end Strengths
